@@ -50,8 +50,10 @@ EXPORT void reim_from_znx64_simple(uint32_t m, uint32_t log2bound, void* r, cons
   static REIM_FROM_ZNX64_PRECOMP precomp[32];
   REIM_FROM_ZNX64_PRECOMP* p = precomp + log2m(m);
   if (!p->function) {
+    SPQLIOS_VERIF_EVENT(1, 5, log2m(m), 0, 0, 0);
     if (!init_reim_from_znx64_precomp(p, m, log2bound)) abort();
   }
+  SPQLIOS_VERIF_EVENT(2, 5, log2m(m), p->m, 0, 0);
   p->function(p, r, a);
 }
 
@@ -205,8 +207,10 @@ EXPORT void reim_to_znx64_simple(uint32_t m, double divisor, uint32_t log2bound,
   static __thread REIM_TO_ZNX64_PRECOMP p;
   static __thread uint32_t prev_log2bound;
   if (!p.function || p.m != m || p.divisor != divisor || prev_log2bound != log2bound) {
+    SPQLIOS_VERIF_EVENT(1, 6, 0, 0, 0, 0);
     if (!init_reim_to_znx64_precomp(&p, m, divisor, log2bound)) abort();
     prev_log2bound = log2bound;
   }
+  SPQLIOS_VERIF_EVENT(2, 6, 0, p.m, *(int64_t*)&p.divisor, prev_log2bound);
   p.function(&p, r, a);
 }
